@@ -240,7 +240,7 @@ def run(ctx):
     # size costs little): nothing in the property depends on the number or on the order of the rows
     for lay, pat, form, rows in ((['gaussian', 'gaussian', 'gaussian'], 'ar', 'instance', 6000 if quick else 24000),
                                  (['gaussian', 'uniform', 'constant'], 'equi-positive', 'dict', 5000 if quick else 12000),
-                                 (['timestamp', 'gaussian'], 'equi-negative', 'class', 2600 if quick else 5200)):
+                                 (['timestamp', 'gaussian'], 'equi-negative', 'class', 6500 if quick else 9100)):        # KDE marginals on several thousand rows
         clist.append({'layout': lay, 'pattern': pat, 'form': form, 'n': 1000, 'big': rows})
     # and three requests with four and five columns, one of them constant, under the AR(0.8) pattern (all pairwise correlations differ)
     for lay, form in ((['micro', 'gaussian'], 'class'), (['gaussian', 'micro', 'uniform'], 'name'), (['micro', 'micro'], 'default'),
